@@ -262,9 +262,23 @@ def jetexpand_ode_doubling_unroll(
 
         double = jetexpand_ode_coefficient_double()
         (u0,) = inits  # This asserts ODEs are first-order only. High order is a todo
-        taylor_coefficients = [u0]
+
+        # Augment the state with the time variable (which has unit velocity),
+        # so that explicit time-dependence enters the recursion.
+        u0_flat = np.reshape(u0, (-1,))
+        t_flat = np.reshape(np.asarray(t, dtype=u0_flat.dtype), (1,))
+
+        @problems.ode
+        def vf_aug(z, /, *, t):
+            del t
+            z_u = np.reshape(z[:-1], np.shape(u0))
+            [fu] = vf.vector_field(jet_coords=(z_u,), t=z[-1])
+            return np.concatenate([np.reshape(fu, (-1,)), np.ones_like(z[-1:])])
+
+        taylor_coefficients = [np.concatenate([u0_flat, t_flat])]
         for _ in range(num_doublings):
-            taylor_coefficients, _ = double(vf, taylor_coefficients, t=t)
+            taylor_coefficients, _ = double(vf_aug, taylor_coefficients, t=t)
+        taylor_coefficients = [np.reshape(c[:-1], np.shape(u0)) for c in taylor_coefficients]
         return _apply_factorial_scaling(*taylor_coefficients), {}
 
     return expand
